@@ -548,8 +548,8 @@ bool BarnettSmartVTMF_dlog::KeyGenerationProtocol_VerifyKey_interactive
 		if (!in.good())
 			throw false;
 
-		// verify in-group property of $m_1$
-		if (!CheckElement(m_1))
+		// verify in-group property of $m_1$ and of the key
+		if (!CheckElement(m_1) || !CheckElement(key))
 			throw false;
 
 		// choose challenge $c$ randomly
@@ -599,8 +599,8 @@ bool BarnettSmartVTMF_dlog::KeyGenerationProtocol_VerifyKey_interactive_publicco
 		if (!in.good())
 			throw false;
 
-		// verify in-group property of $m_1$
-		if (!CheckElement(m_1))
+		// verify in-group property of $m_1$ and of the key
+		if (!CheckElement(m_1) || !CheckElement(key))
 			throw false;
 
 		// flip coins with prover to get $c \in \mathbb{Z}_q$
